@@ -2,6 +2,7 @@ package main
 
 import (
 	"verif/engines/chunk"
+	"verif/engines/hostile"
 	"verif/engines/pull"
 	"verif/simkit"
 )
@@ -43,5 +44,15 @@ func init() {
 			"real": {"json.Decoder", "ubjson.Decoder", "cborl.Decoder", "the three push parsers (per-value reference)"},
 			"stub": {"io.Reader (simkit.Reader)", "downstream visitor (simkit.Tap recorder)"}},
 		Assumptions: []string{"reference events per value are those of the push parser on that value alone", "no (0,nil) reads with a non-empty buffer are injected; buffer size >= 1"},
+	}
+	registry["C03"] = &propCfg{
+		Engine: hostile.Engine{}, EngineName: "hostile", Level: "exploration",
+		QuickRuns: 20000, ThoroughRuns: 3000000, QuickCapS: 60, ThoroughCapS: 900,
+		Rule: "one run = one valid stream from the independent writers, then either 6-15 hostile inputs derived from it (1-4 seeded corruptions: bit flip, byte replace, interesting-byte replace/insert, delete, truncate, length inflation; splices; pure random bytes), each delivered through 2-3 of {Parse, ParseString, Write* under a seeded chunking, ParseReader and Decoder.Next loops under seeded short reads / buffer sizes / EOF modes}, or (1 run in 3) every strict prefix ending inside a value (96 sampled if more) through the five entry points that know the end; evaluations = guarded entry-point executions; distinct by (input bytes, entry, schedule); all are non-trivial (hostile or truncated input)",
+		Components: map[string][]string{
+			"real": {"json/ubjson/cborl Parser", "json/ubjson/cborl Decoder", "io.Copy"},
+			"stub": {"io.Reader (simkit.Reader)", "downstream visitor (counting sink)"}},
+		Assumptions: []string{"allocation is measured as the delta of /gc/heap/allocs:bytes around the call with bound 1 MiB + 64*len(input): small-object counts are flushed per span, so only allocations out of proportion are visible",
+			"termination backstop: 15 s in-process watchdog per run; events bounded by 8*len+16", "JSON top-level numbers are excluded from the truncation check (a prefix of a number is a number)"},
 	}
 }
